@@ -485,6 +485,8 @@ def execute(spec, plan=(), policy=None, log_from=None, instr_points=True):
         n0 = len(ctx.cbs)
         if not ctx.out["deadlock"] and not ctx.out["timeout"]:
             try:
+                if spec["pre"].get("interval_subs"):
+                    ctx.clock.advance(2.0)       # every subscription that still exists is due again in the final pass
                 ctx.serv.attend_subscriptions()
             except Exception as e:  # noqa
                 ctx.out["exceptions"].append(("final-attend", e))
